@@ -2479,10 +2479,22 @@ func (data *Data) CreateShardGroup(database, policy string, timestamp time.Time,
 		return nil
 	}
 
+	// The shard layout is taken from one measurement of the policy.  Pick it by name (live
+	// measurements first), not by map iteration order: all replicas have to build the same group.
 	var msti *MeasurementInfo
-	for _, mst := range rpi.Measurements {
-		msti = mst
-		break
+	mstNames := make([]string, 0, len(rpi.Measurements))
+	for name := range rpi.Measurements {
+		mstNames = append(mstNames, name)
+	}
+	sort.Strings(mstNames)
+	for _, name := range mstNames {
+		if mst := rpi.Measurements[name]; !mst.MarkDeleted {
+			msti = mst
+			break
+		}
+	}
+	if msti == nil && len(mstNames) > 0 {
+		msti = rpi.Measurements[mstNames[0]]
 	}
 
 	if msti == nil {
